@@ -35,3 +35,81 @@ Proof.
   rewrite sp_mem_seq_In, in_app_iff, may_products_spec.
   rewrite <- realizable_iff_lemma. unfold realizable. rewrite sp_mem_seq_In. tauto.
 Qed.
+
+(* ------------------------------------------------------------------ general breakpoints *)
+Lemma fuse_gen_backbone_lemma : forall xd bp mid mvars xa bp',
+  in_tx (fuse_gen xd bp mid mvars xa bp') =
+  firstn (Z.to_nat bp) (in_tx xd) ++ mid ++ skipn (Z.to_nat bp') (in_tx xa).
+Proof. reflexivity. Qed.
+
+Lemma fuse_gen_records_lemma : forall xd bp mid mvars xa bp' v,
+  In v (in_vars (fuse_gen xd bp mid mvars xa bp')) <->
+  (In v (in_vars xd) /\ v_e v <= bp) \/
+  (exists w, In w mvars /\ v = move bp w) \/
+  (exists w, In w (in_vars xa) /\ bp' <= v_s w /\ v = move (bp + zlen mid - bp') w).
+Proof.
+  intros xd bp mid mvars xa bp' v. unfold fuse_gen. cbn [in_vars].
+  rewrite !in_app_iff, filter_In, !in_map_iff. split.
+  - intros [[H1 H2]|[(w & <- & Hw)|(w & <- & Hw)]].
+    + left. split; auto. lia.
+    + right. left. exists w. auto.
+    + right. right. apply filter_In in Hw as [Hw Hs]. exists w. repeat split; auto. lia.
+  - intros [[H1 H2]|[(w & Hw & ->)|(w & Hw & Hs & ->)]].
+    + left. split; auto. lia.
+    + right. left. exists w. auto.
+    + right. right. exists w. split; auto. apply filter_In. split; auto. lia.
+Qed.
+
+(* exonic breakpoints are the special case of empty retained pieces *)
+Lemma fuse_gen_exonic_lemma : forall xd bp xa bp',
+  fuse_gen xd bp [] [] xa bp' = fuse xd bp xa bp'.
+Proof.
+  intros. unfold fuse_gen, fuse. cbn [zlen map app].
+  replace (bp + 0 - bp') with (bp - bp') by lia. reflexivity.
+Qed.
+
+Definition MayProductT (x : input) (tail : bool) (h : list variant) (p : seq) : Prop :=
+  exists st secs,
+    In st (may_starts x h (apply_hap (in_tx x) h)) /\ In secs (may_secs x h) /\
+    Product x false tail (translate_from (apply_hap (in_tx x) h) st secs) p.
+
+Lemma may_products_t_spec : forall x tail h p, In p (may_products_t x tail h) <-> MayProductT x tail h p.
+Proof.
+  intros x tail h p. unfold may_products_t, MayProductT. rewrite in_flat_map. split.
+  - intros (st & Hst & H). apply in_flat_map in H as (secs & Hs & H).
+    apply products_spec in H. exists st, secs. auto.
+  - intros (st & secs & Hst & Hs & H). exists st. split; auto.
+    apply in_flat_map. exists secs. split; auto. apply products_spec; auto.
+Qed.
+
+Lemma may_products_t_true : forall x h, may_products_t x true h = may_products x h.
+Proof. reflexivity. Qed.
+
+(* C02 for a fusion transcript with arbitrary breakpoints: a digestion product of the fused backbone carrying a
+   compatible -- possibly empty -- set of the applicable records; the open last peptide only when the
+   acceptor's 3' end is complete *)
+Lemma realizable_fusion_g_iff_lemma : forall xd bp mid mvars xa bp' p,
+  realizable_fusion_g xd bp mid mvars xa bp' p = true <->
+  let x := fuse_gen xd bp mid mvars xa bp' in
+  MayProductT x (fusion_tail x) [] p \/
+  exists m, length m = length (in_vars x) /\
+    let h := select m (in_vars x) in
+    nonempty h = true /\ pairwise false h = true /\ MayProductT x (fusion_tail x) h p.
+Proof.
+  intros xd bp mid mvars xa bp' p. cbn zeta. unfold realizable_fusion_g, fusion_set_t.
+  rewrite sp_mem_seq_In, in_app_iff, may_products_t_spec, in_flat_map. split.
+  - intros [H|(h & Hh & Hp)]; auto. right.
+    apply haplotypes_spec in Hh as (m & Hl & -> & Hn & Hc). exists m. repeat split; auto.
+    apply may_products_t_spec; auto.
+  - intros [H|(m & Hl & Hn & Hc & Hp)]; auto. right.
+    exists (select m (in_vars (fuse_gen xd bp mid mvars xa bp'))). split.
+    + apply haplotypes_spec. exists m. auto.
+    + apply may_products_t_spec; auto.
+Qed.
+
+(* a product that does not use the open tail is a product with the tail admitted *)
+Lemma may_products_t_mono : forall x h p, In p (may_products_t x false h) -> In p (may_products_t x true h).
+Proof.
+  intros x h p H. apply may_products_t_spec in H as (st & secs & Hst & Hs & Hp).
+  apply may_products_t_spec. exists st, secs. repeat split; auto. eapply Product_weaken; eauto.
+Qed.
